@@ -60,6 +60,11 @@ func hasKindOrLogical(s ref.Schema) (narrow, logical, fixed bool) {
 	return
 }
 
+var (
+	c13Scratch []byte
+	c13ReadBuf = avro.NewReadBuf(nil)
+)
+
 func runC13(c writeCase) (bool, []string, error) {
 	var labels []string
 	narrow, logical, fixed := hasKindOrLogical(c.Schema)
@@ -67,6 +72,12 @@ func runC13(c writeCase) (bool, []string, error) {
 	for name, on := range map[string]bool{"null_second": ns, "narrow_numeric": narrow, "logical_type": logical, "fixed": fixed} {
 		if on {
 			labels = append(labels, name)
+		}
+	}
+	for _, v := range c.Values {
+		if hasRep(v) {
+			labels = append(labels, "array_of_more_than_a_megabyte")
+			break
 		}
 	}
 	nt := (ns || narrow || logical || fixed) && len(c.Values) > 0
@@ -105,7 +116,15 @@ func runC13(c writeCase) (bool, []string, error) {
 		if err := agree(c.Schema, d, c.Target, false, in.Elem(), dirWrite, fmt.Sprintf("value[%d]", i)); err != nil {
 			return nt, labels, fmt.Errorf("written bytes do not denote the Go value: %w", err)
 		}
-		rb := avro.NewReadBuf(out)
+		// decoded, as a long-lived consumer does, from one input buffer and one ReadBuf
+		// used for every message (what sits in the buffer changes under whatever an
+		// earlier decode may have kept a reference to)
+		if cap(c13Scratch) < len(out) {
+			c13Scratch = make([]byte, 0, 2*len(out)+64)
+		}
+		c13Scratch = append(c13Scratch[:0], out...)
+		rb := c13ReadBuf
+		rb.Reset(c13Scratch)
 		back := reflect.New(typ)
 		if err := codec.Read(rb, back.UnsafePointer()); err != nil {
 			return nt, labels, fmt.Errorf("value %d: Codec.Read of the codec's own output failed: %v", i, err)
